@@ -309,6 +309,9 @@ func instantiate(sub map[string]string, commentAt map[int]string) string {
 		rep := ""
 		if c, ok := commentAt[i]; ok {
 			rep = "# " + c + "\n"
+			if strings.HasSuffix(c, " (blank line follows)") {
+				rep += "\n"
+			}
 		}
 		s = strings.ReplaceAll(s, fmt.Sprintf("@C%d@", i), rep)
 	}
@@ -409,6 +412,10 @@ func main() {
 			add(fmt.Sprintf("comments@%d,%d", i, j), nil, map[int]string{i: fmt.Sprintf("comment number %d", i), j: fmt.Sprintf("comment number %d", j)}, nil)
 		}
 	}
+	// a comment separated from the element it precedes by an empty line
+	for i := 0; i <= 22; i++ {
+		add(fmt.Sprintf("comment-then-blank-line@%d", i), nil, map[int]string{i: fmt.Sprintf("comment number %d (blank line follows)", i)}, nil)
+	}
 	// dangling comments before each closing bracket
 	{
 		base := instantiate(nil, nil)
@@ -424,9 +431,46 @@ func main() {
 		cases = append(cases, Case{Kind: "single", Desc: "comment-in-array", Src: strings.Replace(base, "xs = [1, 2],", "xs = [\n            # first element\n            1,\n            # second element\n            2,\n        ],", 1)})
 		cases = append(cases, Case{Kind: "single", Desc: "comment-in-map", Src: strings.Replace(base, `m  = {"k": 1},`, "m  = {\n            # the key\n            \"k\": 1,\n        },", 1)})
 		cases = append(cases, Case{Kind: "single", Desc: "comment-in-struct", Src: strings.Replace(base, `st = {a: 1, f: "x.txt"},`, "st = {\n            # field a\n            a: 1,\n            # field f\n            f: \"x.txt\",\n        },", 1)})
+		cases = append(cases, Case{Kind: "single", Desc: "comment-then-blank-line-in-array", Src: strings.Replace(base, "xs = [1, 2],", "xs = [\n            # first element\n\n            1,\n            2,\n        ],", 1)})
+		cases = append(cases, Case{Kind: "single", Desc: "comment-then-blank-line-in-map", Src: strings.Replace(base, `m  = {"k": 1},`, "m  = {\n            # the key\n\n            \"k\": 1,\n        },", 1)})
 		cases = append(cases, Case{Kind: "single", Desc: "comment-before-resource-entry", Src: strings.Replace(base, "    threads  = 2,", "    # threads comment\n    threads  = 2,", 1)})
 		cases = append(cases, Case{Kind: "single", Desc: "comment-before-prefix-modifier-call", Src: strings.Replace(strings.Replace(base, "    call S1(\n", "    # about the call\n    call local volatile S1(\n", 1), ") using (\n        disabled = self.d,\n        local    = true,\n        volatile = true,\n    )", ")", 1)})
 		cases = append(cases, Case{Kind: "single", Desc: "comment-before-modifier-entry", Src: strings.Replace(base, "        local    = true,", "        # why local\n        local    = true,", 1)})
+	}
+	// the using block of a call: its three entries in each of their six
+	// written orders (the formatter prints them sorted) x every subset of
+	// {a comment between the last binding and ") using (", a comment before
+	// each entry}
+	{
+		base := instantiate(nil, nil)
+		block := "    ) using (\n        disabled = self.d,\n        local    = true,\n        volatile = true,\n    )"
+		if strings.Count(base, block) == 1 {
+			entries := []string{"disabled = self.d,", "local    = true,", "volatile = true,"}
+			orders := [][]int{{0, 1, 2}, {0, 2, 1}, {1, 0, 2}, {1, 2, 0}, {2, 0, 1}, {2, 1, 0}}
+			for oi, ord := range orders {
+				for mask := 0; mask < 16; mask++ {
+					var b strings.Builder
+					if mask&8 != 0 {
+						b.WriteString("        # dangling after the bindings\n")
+					}
+					b.WriteString("    ) using (\n")
+					for pos, e := range ord {
+						if mask&(1<<pos) != 0 {
+							fmt.Fprintf(&b, "        # about entry %d of the using block\n", pos)
+						}
+						b.WriteString("        " + entries[e] + "\n")
+					}
+					b.WriteString("    )")
+					desc := fmt.Sprintf("using-block:order=%d:comments=%04b", oi, mask)
+					if mask&8 != 0 {
+						desc += ":dangling"
+					}
+					cases = append(cases, Case{Kind: "single", Desc: desc, Src: strings.Replace(base, block, b.String(), 1)})
+				}
+			}
+		} else {
+			panic("C09: the template's using block has changed; update the using-block family")
+		}
 	}
 	// optional clauses, singly and in pairs, and with each 1-slot deviation of the numeric slots
 	for i, c1 := range clauses {
@@ -580,7 +624,7 @@ pipeline P(
 	cases = append(cases, multi...)
 
 	r.Rule = fmt.Sprintf("a template program with %d literal/string/number/keyword slots: the base, every 1-slot and every 2-slot substitution from per-slot value lists (negative, huge and tiny numbers, every escape form, non-ASCII, nested empty collections, struct vs map literals, strings with quotes/backslashes in src/help/outname/special); "+
-		"every optional clause removed singly and in pairs (split, using, retains, modifiers in both syntaxes, help, call); all 128 combinations of local/preflight/volatile each absent, in keyword form, bound true or bound false (+disabled) on one call; for compiling sources the include-expanded rendering (what mrp records as _mrosource) must compile on its own to the same program; a comment before each of 23 element positions singly and in pairs, dangling before every closing bracket, inside collections and resource/modifier lists; all 24 orders of 4 calls; every .mro fixture of the repository; 6 include graphs. "+
+		"every optional clause removed singly and in pairs (split, using, retains, modifiers in both syntaxes, help, call); all 128 combinations of local/preflight/volatile each absent, in keyword form, bound true or bound false (+disabled) on one call; for compiling sources the include-expanded rendering (what mrp records as _mrosource) must compile on its own to the same program; a comment before each of 23 element positions singly and in pairs, dangling before every closing bracket, inside collections and resource/modifier lists; the three entries of a call's using block in each of their 6 written orders x every subset of 4 comment positions (before the block, before each entry); all 24 orders of 4 calls; every .mro fixture of the repository; 6 include graphs. "+
 		"oracle: formatted text parses, canonical position-free tree equal, comments kept (exactly once when not dangling), fixed point, compiles if the source did, include-expanded text compiles alone with an equal call graph. distinct = distinct source texts; non-trivial = accepted by the parser", len(slots))
 	if only := os.Getenv("VERIF_ONLY"); only != "" {
 		var sel []Case
